@@ -647,6 +647,10 @@ def run(ctx, facts):
     ctx.rule("K10", "add_count leaves its resize loop only with count < size_ctl or for a reason independent of the count and of the "
                     "resize hint", floor=1)
     rule_k10(ctx, facts)
+    ctx.rule("K13", "every add_count with a positive delta passes Some(hint) (rule Z17 of C10): the table grows when an insert brings the count "
+                    "to three quarters of its length, whichever bin the insert landed in", floor=2)
+    from .rules_c10 import rule_z17
+    rule_z17(ctx, facts, rule="K13")
     ctx.rule("K12", "the count that add_count compares with the threshold is the number of entries: adjusted exactly once per link / unlink, "
                     "clear hands over everything it removed (rule Q1 of C05) -- a count that drifts upwards doubles a table that is far from full",
              floor=6)
